@@ -154,6 +154,29 @@ def run(tier):
                     fails.append(rec('%s: decoding with resolution off raised %s: %s' % (desc, type(ex).__name__,
                                                                                         str(ex)[:100]), codec=cname,
                                      tagging=tagging, container=container, constructed=constructed, enc={'hex': e.hex()}))
+                # 2b. a collection that mixes a raw element (as captured with resolution off: a value of the field's own
+                #     type) with the typed inner value encodes like the collection of two typed ones: wrapped or not is
+                #     decided per element
+                if container in ('setof', 'set-setof'):
+                    n += 1
+                    try:
+                        r0, _ = dec.decode(e, asn1Spec=spec)
+                        for order in ((0, 1), (1, 0)):
+                            v2 = spec.clone()
+                            if govmode != 'default':
+                                v2['id'] = key
+                            items = [r0['blob'][0], inner]
+                            for k in order:
+                                v2['blob'].append(items[k])
+                            e2 = enc(v2)
+                            if e2 != e:
+                                fails.append(rec('%s: a collection mixing a captured element and a typed one (order %r) '
+                                                 'encodes to %s, two typed ones to %s' % (desc, order, e2.hex(), e.hex()),
+                                                 codec=cname, tagging=tagging, container=container, constructed=constructed))
+                                break
+                    except Exception as ex:
+                        fails.append(rec('%s: mixed collection raised %s: %s' % (desc, type(ex).__name__, str(ex)[:100]),
+                                         codec=cname, tagging=tagging, container=container, constructed=constructed))
                 # 3. caller-supplied map overrides the default one
                 n += 1
                 try:
@@ -166,6 +189,22 @@ def run(tier):
                 except Exception as ex:
                     fails.append(rec('%s: openTypes override raised %s: %s' % (desc, type(ex).__name__, str(ex)[:100]),
                                      codec=cname, tagging=tagging, container=container, constructed=constructed))
+                # 4. a caller's map that does not bind this governing value: the type's own map resolves it, and the
+                #    caller's map is what it was (a second call with the same map must see the same thing)
+                n += 1
+                try:
+                    other_key = 99 if not isinstance(key, tuple) else (2, 999)
+                    callers = {other_key: univ.Null()}
+                    before = dict(callers)
+                    r, rest = dec.decode(e, asn1Spec=spec, openTypes=callers)
+                    if callers != before or list(callers) != list(before):
+                        fails.append(rec('%s: decode() changed the caller\'s openTypes map: keys %r, were %r' % (
+                            desc, sorted(map(repr, callers)), sorted(map(repr, before))), codec=cname, tagging=tagging,
+                            container=container, constructed=constructed))
+                except Exception as ex:
+                    fails.append(rec('%s: caller map without the governing value raised %s: %s' % (
+                        desc, type(ex).__name__, str(ex)[:100]), codec=cname, tagging=tagging, container=container,
+                        constructed=constructed))
     return fails, n
 
 
